@@ -1,0 +1,183 @@
+//go:build verif
+
+package pq
+
+// Machine-checked contracts for package pq (read by /verif/govc; comments
+// only, compiled only with build tag verif).
+//
+// Abstract view of the queue: the sequence h.a. The user callbacks are
+// specification-level functions: lessOf(f, x, y) is what the comparator f
+// answers for (x, y); the ghost map `reported` records the last index that
+// setIndex was told for each element.
+//
+//@ ghostvar reported map[any]int
+//@ spec lessOf(f func, x any, y any) bool
+//@ spec idxOK(h pqHeap) bool = h.setIndex != nil ==> (forall k int :: 0 <= k && k < len(h.a) ==> reported[h.a[k]] == k)
+//@ spec distinct(h pqHeap) bool = forall p int, q int :: 0 <= p && p < q && q < len(h.a) ==> h.a[p] != h.a[q]
+//@
+//@ func fieldfunc pqHeap.less
+//@   ensures result == lessOf(fn, x, y)
+//@   pure
+//@
+//@ func fieldfunc pqHeap.setIndex
+//@   ensures reported == update(old(reported), x, idx)
+//@   writes G$reported
+//@
+//@ func NewQueue
+//@   ensures fresh(result) && len(result.heap.a) == 0
+//@   ensures result.heap.less == less && result.heap.setIndex == setIndex
+//@   modifies nothing
+//@   props C20
+//@
+//@ func (pqHeap).Len
+//@   ensures result == len(h.a)
+//@   modifies nothing
+//@   props C20
+//@
+//@ func (pqHeap).Less
+//@   requires 0 <= i && i < len(h.a) && 0 <= j && j < len(h.a) && h.less != nil
+//@   ensures result == lessOf(h.less, h.a[i], h.a[j])
+//@   modifies nothing
+//@   props C20
+//@
+//@ func (pqHeap).Swap
+//@   requires 0 <= i && i < len(h.a) && 0 <= j && j < len(h.a)
+//@   requires distinct(h) && idxOK(h)
+//@   ensures h.a[i] == old(h.a[j]) && h.a[j] == old(h.a[i])
+//@   ensures forall k int :: 0 <= k && k < len(h.a) && k != i && k != j ==> h.a[k] == old(h.a[k])
+//@   ensures h.setIndex == nil ==> reported == old(reported)
+//@   ensures h.setIndex != nil ==> reported == update(update(old(reported), old(h.a[j]), i), old(h.a[i]), j)
+//@   ensures distinct(h) && idxOK(h)
+//@   modifies elems(h.a)
+//@   props C20
+//@
+//@ func (*pqHeap).Push
+//@   requires h != nil
+//@   requires distinct(*h) && idxOK(*h)
+//@   requires forall k int :: 0 <= k && k < len(h.a) ==> h.a[k] != x
+//@   ensures len(h.a) == old(len(h.a)) + 1
+//@   ensures h.a[len(h.a)-1] == x
+//@   ensures forall k int :: 0 <= k && k < old(len(h.a)) ==> h.a[k] == old(h.a[k])
+//@   ensures h.setIndex != nil ==> reported == update(old(reported), x, old(len(h.a)))
+//@   ensures h.setIndex == nil ==> reported == old(reported)
+//@   ensures h.less == old(h.less) && h.setIndex == old(h.setIndex)
+//@   ensures distinct(*h) && idxOK(*h)
+//@   modifies h.a, elems(h.a)
+//@   props C20
+//@
+//@ func (*pqHeap).Pop
+//@   requires h != nil && len(h.a) > 0
+//@   requires distinct(*h) && idxOK(*h)
+//@   ensures result == old(h.a[len(h.a)-1])
+//@   ensures len(h.a) == old(len(h.a)) - 1
+//@   ensures forall k int :: 0 <= k && k < len(h.a) ==> h.a[k] == old(h.a[k])
+//@   ensures reported == old(reported)
+//@   ensures h.less == old(h.less) && h.setIndex == old(h.setIndex)
+//@   ensures distinct(*h) && idxOK(*h)
+//@   modifies h.a
+//@   props C20
+//@
+//@ func (*Queue).Len
+//@   requires pq != nil
+//@   ensures result == len(pq.heap.a)
+//@   modifies nothing
+//@   props C20
+//@
+//@ func (*Queue).Min
+//@   requires pq != nil && len(pq.heap.a) > 0
+//@   ensures result == pq.heap.a[0]
+//@   modifies nothing
+//@   props C20
+//@
+//@ // ---- container/heap: ASSUMED contracts (standard library, not verified).
+//@ // They say what heap.Push/Pop/Fix/Remove establish when the five
+//@ // heap.Interface methods behave as proved above. hp is the *pqHeap inside
+//@ // the interface value.
+//@ spec hpOf(h any) *pqHeap = unbox(h, "*pqHeap")
+//@ spec heapOK(h pqHeap) bool = forall k int :: 1 <= k && k < len(h.a) ==> !lessOf(h.less, h.a[k], h.a[(k-1)/2])
+//@ spec wfHeap(h pqHeap) bool = h.less != nil && distinct(h) && idxOK(h) && heapOK(h)
+//@ spec member(h pqHeap, x any) bool = exists k int :: 0 <= k && k < len(h.a) && h.a[k] == x
+//@
+//@ func container/heap.Push
+//@   trusted
+//@   requires typeis(h, "*pqHeap") && hpOf(h) != nil && wfHeap(*hpOf(h)) && !member(*hpOf(h), x)
+//@   ensures len(hpOf(h).a) == old(len(hpOf(h).a)) + 1
+//@   ensures wfHeap(*hpOf(h)) && member(*hpOf(h), x)
+//@   ensures forall y any :: old(member(*hpOf(h), y)) ==> member(*hpOf(h), y)
+//@   ensures forall y any :: member(*hpOf(h), y) ==> (y == x || old(member(*hpOf(h), y)))
+//@   ensures hpOf(h).less == old(hpOf(h).less) && hpOf(h).setIndex == old(hpOf(h).setIndex)
+//@   modifies hpOf(h).a, elems(hpOf(h).a)
+//@   writes G$reported
+//@
+//@ func container/heap.Pop
+//@   trusted
+//@   requires typeis(h, "*pqHeap") && hpOf(h) != nil && wfHeap(*hpOf(h)) && len(hpOf(h).a) > 0
+//@   ensures len(hpOf(h).a) == old(len(hpOf(h).a)) - 1
+//@   ensures wfHeap(*hpOf(h)) && old(member(*hpOf(h), result)) && !member(*hpOf(h), result)
+//@   ensures forall y any :: old(member(*hpOf(h), y)) && y != result ==> member(*hpOf(h), y)
+//@   ensures forall y any :: member(*hpOf(h), y) ==> old(member(*hpOf(h), y))
+//@   ensures forall y any :: old(member(*hpOf(h), y)) ==> !lessOf(hpOf(h).less, y, result)
+//@   ensures hpOf(h).less == old(hpOf(h).less) && hpOf(h).setIndex == old(hpOf(h).setIndex)
+//@   modifies hpOf(h).a, elems(hpOf(h).a)
+//@   writes G$reported
+//@
+//@ func container/heap.Fix
+//@   trusted
+//@   requires typeis(h, "*pqHeap") && hpOf(h) != nil && hpOf(h).less != nil && distinct(*hpOf(h)) && idxOK(*hpOf(h))
+//@   requires 0 <= i && i < len(hpOf(h).a)
+//@   ensures len(hpOf(h).a) == old(len(hpOf(h).a)) && distinct(*hpOf(h)) && idxOK(*hpOf(h))
+//@   ensures forall y any :: old(member(*hpOf(h), y)) <==> member(*hpOf(h), y)
+//@   ensures hpOf(h).less == old(hpOf(h).less) && hpOf(h).setIndex == old(hpOf(h).setIndex)
+//@   modifies elems(hpOf(h).a)
+//@   writes G$reported
+//@
+//@ func container/heap.Remove
+//@   trusted
+//@   requires typeis(h, "*pqHeap") && hpOf(h) != nil && wfHeap(*hpOf(h))
+//@   requires 0 <= i && i < len(hpOf(h).a)
+//@   ensures len(hpOf(h).a) == old(len(hpOf(h).a)) - 1
+//@   ensures result == old(hpOf(h).a[i])
+//@   ensures wfHeap(*hpOf(h)) && !member(*hpOf(h), result)
+//@   ensures forall y any :: old(member(*hpOf(h), y)) && y != result ==> member(*hpOf(h), y)
+//@   ensures forall y any :: member(*hpOf(h), y) ==> old(member(*hpOf(h), y))
+//@   ensures hpOf(h).less == old(hpOf(h).less) && hpOf(h).setIndex == old(hpOf(h).setIndex)
+//@   modifies hpOf(h).a, elems(hpOf(h).a)
+//@   writes G$reported
+//@
+//@ // ---- Queue: thin wrappers; their contracts re-export the assumed ones.
+//@ func (*Queue).Push
+//@   requires pq != nil && wfHeap(pq.heap) && !member(pq.heap, x)
+//@   ensures len(pq.heap.a) == old(len(pq.heap.a)) + 1
+//@   ensures wfHeap(pq.heap) && member(pq.heap, x)
+//@   ensures forall y any :: old(member(pq.heap, y)) ==> member(pq.heap, y)
+//@   ensures forall y any :: member(pq.heap, y) ==> (y == x || old(member(pq.heap, y)))
+//@   modifies pq.heap.a, elems(pq.heap.a)
+//@   props C20
+//@
+//@ func (*Queue).Pop
+//@   requires pq != nil && wfHeap(pq.heap) && len(pq.heap.a) > 0
+//@   ensures len(pq.heap.a) == old(len(pq.heap.a)) - 1
+//@   ensures wfHeap(pq.heap) && old(member(pq.heap, result)) && !member(pq.heap, result)
+//@   ensures forall y any :: old(member(pq.heap, y)) && y != result ==> member(pq.heap, y)
+//@   ensures forall y any :: member(pq.heap, y) ==> old(member(pq.heap, y))
+//@   ensures forall y any :: old(member(pq.heap, y)) ==> !lessOf(pq.heap.less, y, result)
+//@   modifies pq.heap.a, elems(pq.heap.a)
+//@   props C20
+//@
+//@ func (*Queue).Fix
+//@   requires pq != nil && pq.heap.less != nil && distinct(pq.heap) && idxOK(pq.heap)
+//@   requires 0 <= index && index < len(pq.heap.a)
+//@   ensures len(pq.heap.a) == old(len(pq.heap.a)) && distinct(pq.heap) && idxOK(pq.heap)
+//@   ensures forall y any :: old(member(pq.heap, y)) <==> member(pq.heap, y)
+//@   modifies elems(pq.heap.a)
+//@   props C20
+//@
+//@ func (*Queue).Remove
+//@   requires pq != nil && wfHeap(pq.heap)
+//@   requires 0 <= index && index < len(pq.heap.a)
+//@   ensures len(pq.heap.a) == old(len(pq.heap.a)) - 1
+//@   ensures wfHeap(pq.heap) && !member(pq.heap, old(pq.heap.a[index]))
+//@   ensures forall y any :: old(member(pq.heap, y)) && y != old(pq.heap.a[index]) ==> member(pq.heap, y)
+//@   ensures forall y any :: member(pq.heap, y) ==> old(member(pq.heap, y))
+//@   modifies pq.heap.a, elems(pq.heap.a)
+//@   props C20
